@@ -1,4 +1,5 @@
 From GV Require Import Common.Outcome C20.Model C20.Spec C20.Proofs.
+From GV Require Import C20.PipelineSpec C20.PipelineProofs C20.PipelineExamples.
 
 Theorem C20_guards_imply_no_wrap : guards_imply_no_wrap_stmt.
 Proof. exact guards_imply_no_wrap. Qed.
@@ -63,3 +64,57 @@ Print Assumptions C20_lex_ids.
 Theorem C20_lex_guard_no_wrap : lex_guard_no_wrap_stmt.
 Proof. exact lex_guard_no_wrap. Qed.
 Print Assumptions C20_lex_guard_no_wrap.
+
+(* ---- width independence of the construction mirror and of parse results (PipelineSpec.v) ---- *)
+
+Theorem C20_construction_bound_monotone : construction_bound_monotone_stmt.
+Proof. exact construction_bound_monotone. Qed.
+Print Assumptions C20_construction_bound_monotone.
+
+Theorem C20_construction_bound_only_refuses : construction_bound_only_refuses_stmt.
+Proof. exact construction_bound_only_refuses. Qed.
+Print Assumptions C20_construction_bound_only_refuses.
+
+Theorem C20_pager_bound_only_refuses : pager_bound_only_refuses_stmt.
+Proof. exact pager_bound_only_refuses. Qed.
+Print Assumptions C20_pager_bound_only_refuses.
+
+Theorem C20_construction_narrow_same_or_refused : construction_narrow_same_or_refused_stmt.
+Proof. exact construction_narrow_same_or_refused. Qed.
+Print Assumptions C20_construction_narrow_same_or_refused.
+
+Theorem C20_refusal_is_storage_check : refusal_is_storage_check_stmt.
+Proof. exact refusal_is_storage_check. Qed.
+Print Assumptions C20_refusal_is_storage_check.
+
+Theorem C20_construction_width_total : construction_width_total_stmt.
+Proof. exact construction_width_total. Qed.
+Print Assumptions C20_construction_width_total.
+
+Theorem C20_construction_sizes_fit : construction_sizes_fit_stmt.
+Proof. exact construction_sizes_fit. Qed.
+Print Assumptions C20_construction_sizes_fit.
+
+Theorem C20_lr1_run_validated : lr1_run_validated_stmt.
+Proof. exact lr1_run_validated. Qed.
+Print Assumptions C20_lr1_run_validated.
+
+Theorem C20_parse_results_conflict_free_agree : parse_results_conflict_free_agree_stmt.
+Proof. exact parse_results_conflict_free_agree. Qed.
+Print Assumptions C20_parse_results_conflict_free_agree.
+
+Theorem C20_parse_results_width_independent : parse_results_width_independent_stmt.
+Proof. exact parse_results_width_independent. Qed.
+Print Assumptions C20_parse_results_width_independent.
+
+Theorem C20_parse_results_width_independent_total : parse_results_width_independent_total_stmt.
+Proof. exact parse_results_width_independent_total. Qed.
+Print Assumptions C20_parse_results_width_independent_total.
+
+Theorem C20_parse_results_always_sound : parse_results_always_sound_stmt.
+Proof. exact parse_results_always_sound. Qed.
+Print Assumptions C20_parse_results_always_sound.
+
+Theorem C20_parse_results_same_oracles : parse_results_same_oracles_stmt.
+Proof. exact parse_results_same_oracles. Qed.
+Print Assumptions C20_parse_results_same_oracles.
